@@ -393,7 +393,10 @@ impl<'a> Enc<'a> {
 			// a line number table may be split over several attributes
 			if let Attr::LineNumberTable(t) = a {
 				let split = self.ch.next() % 4 == 1 && t.len() >= 2;
-				let parts: Vec<&[(usize, u16)]> = if split {
+				let parts: Vec<&[(usize, u16)]> = if t.len() > 65535 {
+					// more entries than one attribute can count: several attributes (JVMS 4.7.12 allows any number of them)
+					t.chunks(40000).collect()
+				} else if split {
 					let k = 1 + (self.ch.next() as usize) % (t.len() - 1);
 					vec![&t[..k], &t[k..]]
 				} else {
